@@ -50,6 +50,11 @@ def weak():
     return ["weak", None]
 
 
+def zst():
+    """A zero-sized user value (`Zst` / `VZst`)."""
+    return ["zst"]
+
+
 def cleaner():
     return ["cleaner"]
 
@@ -172,6 +177,8 @@ def ty(node, fill):
         return "Cc<Leaf>" if kind_of(node, fill) == "cc" else "User"
     if k == "raw":
         return node[1]
+    if k == "zst":
+        return "Zst"
     if k == "scalar":
         return SCALARS[node[1]][1]
     if k == "weak":
@@ -216,6 +223,8 @@ def rs(node, fill):
         return "l[%d].clone()" % node[1] if kind_of(node, fill) == "cc" else "user(%d)" % node[1]
     if k == "raw":
         return node[2]
+    if k == "zst":
+        return "Zst"
     if k == "scalar":
         return SCALARS[node[1]][0]
     if k == "weak":
@@ -261,6 +270,8 @@ def coq(node, fill):
         return "(VLeaf %d)" % node[1] if kind_of(node, fill) == "cc" else "(VUser %d)" % node[1]
     if k == "raw":
         return node[3]
+    if k == "zst":
+        return "VZst"
     if k == "scalar":
         return "VScalar"
     if k == "weak":
@@ -414,6 +425,36 @@ def grid():
     g.append(("mixed_rc", tuple_(refcell("shared", tuple_(slot(), slot())), refcell("mut", tuple_(slot(), slot())), refcell("free", tuple_(slot(), slot()))), ("mixed",)))
     g.append(("mixed_opt_res", tuple_(some(slot()), ok(slot()), err(slot()), some(slot())), ("mixed",)))
 
+    # ZERO-SIZED element types: once per element like any other (user-trace calls and finalize)
+    one = ("cc",)
+    for n in list(range(0, 9)) + [40]:
+        g.append(("vec_zst%d" % n, vec([zst() for _ in range(n)], zst()), one))
+    for n in list(range(0, 9)) + [32]:
+        g.append(("array_zst%d" % n, array([zst() for _ in range(n)], zst()), one))
+    for n in list(range(0, 9)) + [17]:
+        g.append(("bslice_zst%d" % n, bslice([zst() for _ in range(n)], zst()), one))
+    g.append(("zst", zst(), one))
+    g.append(("some_zst", some(zst()), one))
+    g.append(("none_zst", none(zst()), one))
+    g.append(("some_vec_zst", some(vec([zst(), zst(), zst()])), one))
+    g.append(("none_vec_zst", none(vec([], zst())), one))
+    g.append(("some_array_zst", some(array([zst()] * 5)), one))
+    g.append(("some_bslice_zst", some(bslice([zst(), zst()])), one))
+    g.append(("tuple_zsts", tuple_(zst(), zst(), zst()), one))
+    g.append(("tuple_zst_seqs", tuple_(vec([zst()] * 4), array([zst()] * 3), bslice([zst()] * 2), zst()), one))
+    g.append(("vec_zst_tuples", vec([tuple_(zst(), zst()) for _ in range(3)]), one))  # (Zst, Zst) is zero-sized too
+    g.append(("vec_zst_arrays", vec([array([zst(), zst()]) for _ in range(4)]), one))
+    g.append(("array_zst_opts", array([some(zst()), none(zst()), some(zst())]), one))
+    g.append(("vec_md_zst", vec([md(zst()), md(zst())]), one))
+    g.append(("box_aus_vec_zst", box(aus(vec([zst()] * 6))), one))
+    g.append(("ok_vec_zst", ok(vec([zst()] * 2)), one))
+    g.append(("err_array_zst", err(array([zst()] * 2)), one))
+    for st in ("free", "shared", "mut"):
+        g.append(("rc_%s_vec_zst" % st, refcell(st, vec([zst()] * 3)), one))
+        g.append(("vec_rc_%s_zst" % st, vec([refcell(st, zst()), refcell("free", zst())]), one))
+    g.append(("zst_with_leaves", tuple_(slot(), vec([zst()] * 3), slot(), array([zst()] * 2)), both))
+    g.append(("zst_user_interleaved", vec([tuple_(zst(), slot()), tuple_(zst(), slot())]), ("user", "cc")))
+
     # seeded random three-level nestings
     rnd = random.Random(SEED)
     for i in range(60):
@@ -447,7 +488,7 @@ CHUNKS = 8
 COQ_ROW = """
 Definition row (c : nat * (nat * value)) : nat * list (list nat) :=
   let '(id, (k, v)) := c in
-  (id, [counts k (visit v); e2e_expect k v; keep_expect k v; fin_visit v]).
+  (id, [counts k (visit v); e2e_expect k v; keep_expect k v; fin_visit v; utrace v]).
 
 Eval vm_compute in (map row cases).
 """
